@@ -339,4 +339,51 @@ theorem bigOfBytes_pos (b : UInt8) (t : Bytes) (hb : b ≠ 0) : 0 < bigOfBytes (
     intro hc
     exact hb (UInt8.toNat_inj.mp (by simpa using hc))
 
+/-! ### `ToBase58` value, hex -/
+
+/-- what `ToBase58` computes: the base-58 digits of the 25-byte number `23 ‖ a ‖ chk`, through the alphabet -/
+theorem toBase58_eq (H : Bytes → Bytes) (a : Bytes) :
+    toBase58 H a = (digits 58 (bigOfBytes (23 :: a ++ (H (23 :: a)).take 4))).map alphaAt := by
+  unfold toBase58
+  simp only [List.cons_append]
+  rw [b58Encode_toDec _ (bigOfBytes_pos 23 _ (by decide))]
+
+theorem hexVal_hexChar : ∀ n, n < 16 → hexVal (hexChar n) = some n := by decide
+
+theorem hexDecode_hexEncode (bs : Bytes) : hexDecode (hexEncode bs) = some bs := by
+  induction bs with
+  | nil => rfl
+  | cons b r ih =>
+    have hb := b.toNat_lt
+    simp only [hexEncode, hexDecode, hexVal_hexChar _ (Nat.div_lt_of_lt_mul (by omega : b.toNat < 16 * 16)),
+      hexVal_hexChar _ (Nat.mod_lt _ (by omega : 0 < 16)), ih]
+    have : b.toNat / 16 * 16 + b.toNat % 16 = b.toNat := by omega
+    rw [this]
+    simp
+
+/-- a hex string is accepted only if it has exactly 40 characters, and the result has 20 bytes -/
+theorem hexDecode_length (s bs : Bytes) (h : hexDecode s = some bs) : s.length = 2 * bs.length := by
+  induction bs generalizing s with
+  | nil =>
+    match s, h with
+    | [], _ => rfl
+    | [_], h => simp [hexDecode] at h
+    | a :: b :: r, h =>
+      simp only [hexDecode] at h
+      split at h <;> simp at h
+  | cons x t ih =>
+    match s, h with
+    | [], h => simp [hexDecode] at h
+    | [_], h => simp [hexDecode] at h
+    | a :: b :: r, h =>
+      simp only [hexDecode] at h
+      split at h
+      · rename_i hr
+        injection h with h
+        injection h with _ h
+        subst h
+        have := ih r hr
+        simp; omega
+      · cases h
+
 end OntVerif.Proofs.Address
